@@ -18,6 +18,8 @@ EMBEDS it (`Emb mc base bytes mem0`: base and length words of the module context
   whose bounds check was ELIDED by the known-safe-bound cache — lies inside `[base, base + size)`, except the loads of
   the two module-context words; stores are always inside.
 * `frontmem_conservative`: on functions without memory instructions `lowerMem` is `FrontendSL.lowerSL`.
+* `frontmem_wellFormed`: `lowerMem f` is strict SSA in one block (`WellFormedM`).
+* `frontmem_elision_is_model`: the static cache is `Wz.Model.SafeBounds` under an abstraction (same elisions).
 * `frontmem_elision_justified`: whenever `memOpSetup` emits NO check, the bound it found in its cache covers the
   access (the static statement behind the elision).
 -/
@@ -25,6 +27,7 @@ import Wz.Proofs.C01_FrontMem
 import Wz.Proofs.C01_FrontMem_Embed
 import Wz.Proofs.C01_FrontMem_Cons
 import Wz.Proofs.C01_FrontMem_Elide
+import Wz.Proofs.C01_FrontMem_WF
 
 namespace Wz.C01
 open Wz.Spec Wz.Model.SsaPass Wz.Model.FrontendSL Wz.Model.FrontendMem Wz.Proofs.FrontMem
@@ -133,6 +136,16 @@ theorem frontmem_elision_justified {mc base : Nat} {bytes : ByteArray} {s : MS} 
     env b + ceil ≤ bytes.size ∧ env (memOpSetup s b ceil).2.1 = base + env b ∧ (memOpSetup s b ceil).2.2 = s :=
   elision_justified h b ceil hnil
 
+/-- **The front end produces strict SSA** (`WellFormedM`, the one-block content of `SsaPass.wellFormed` on the wrapped
+instruction set): no branch instruction; the values defined — block parameters, then the results in order — are
+0, 1, 2, … (each defined once); every operand is a parameter or the result of an EARLIER instruction — also the
+cached memory base / length and the cached absolute addresses that an elided check reuses; the shifted operand of a
+shift has the shift's type.  So no run of `runM` on the front end's output reads an undefined value.
+(On functions without memory instructions `SsaPass.wellFormed (lowerSL f)` itself holds: `front_wellFormed`, and
+`frontmem_conservative`.) -/
+theorem frontmem_wellFormed (f : FnM) (hwt : wellTypedM f = true) : WellFormedM (lowerMem f) :=
+  lowerMem_wellFormed f hwt
+
 open Wz.Model in
 /-- **The static cache is the path-level model `Wz.Model.SafeBounds`** (the object of `C02.frontend_elision_sound`).
 Under the abstraction `Abs` (a lookup in the `SafeBounds` state = the lookup in the front end's static cache, with the
@@ -227,6 +240,8 @@ example : wellTypedM frontMemBigExample = true ∧
     outTrap (runM noCalls (lowerMem frontMemBigExample) [0xec, 0x3c00, 0x80000000] (embed 0x3c00 0x100000000000 bytes16)).1 =
       some codeMemOOB ∧
     (runSpecM frontMemBigExample [0x80000000] bytes16 8).1 = .trap "oob-memory" := by decide
+
+example : WellFormedM (lowerMem frontMemExample) := frontmem_wellFormed _ (by decide)
 
 /-- the theorems instantiated on the example, for all arguments -/
 example (a v : Nat) (ha : a < 2 ^ 32) (hv : v < 2 ^ 64) (w : World) :
